@@ -91,6 +91,123 @@ CHECKS["C05"] = dict(
     note=GW_NOTE + " Controller ids in protocol range, values carryable, clock within the digit limit (Op.carry).",
     design_ref="DESIGN.md §6 C05, §11.3")
 
+CHECKS["C04"] = dict(
+    technique="Lean 4 proof: refinement of the gateway model to an independent tree specification (specStep/specNotifies) per handler and over all histories, exact callback lists, callback-after-state on a provably conservative instrumented model; differential correspondence of model AND spec against the real gateway; real rerun with raising callbacks",
+    text="refines_step / refines_run: for every state, version and history the persisted tree equals the abstract reading of "
+         "the accepted messages; callbacks_exact / callbacks_run: the callback list equals the spec's (once each, in order, "
+         "own fields); callback_after_state on an instrumented model proved to erase to the model; rejected lines and "
+         "controller calls leave the tree and fire nothing. 'A raising callback changes nothing else' is decided by rerunning "
+         "every history on the real code with a raising callback (not a theorem: the model has no data flow from the callback).",
+    note=GW_NOTE + " Per-line theorems assume the two fallible-first handlers do not raise (C01 discharges it).",
+    design_ref="DESIGN.md §6 C04")
+CHECKS["C10"] = dict(
+    technique="Lean 4 proof: refinement of the three OTA stores to a four-state per-node session automaton for every state/message, lifted to logic and to histories (store invariants, gating, reboot flag persistence); differential correspondence; two oracles on real sessions",
+    text="config_refines / block_refines / update_refines: the responders are the automaton (reply = automaton output, other "
+         "nodes untouched); gated(_history): responses only for scheduled nodes with firmware; "
+         "config_repeated_then_withheld; update_restarts; malformed_noop(_logic): malformed requests give no reply and no "
+         "session change; reboot_until_presented: every set from a known child of a rebooting node gets exactly the I_REBOOT reply "
+         "until the node presents itself.",
+    note=GW_NOTE + " 'Malformed' = payload does not unpack to the required 16-bit words; out-of-range block index gets header + "
+         "empty block; sessions and reboot flags do not survive a restart (interpretations fixed in DESIGN.md).",
+    design_ref="DESIGN.md §6 C10")
+CHECKS["C11"] = dict(
+    technique="Lean 4 proof: round-trip laws of the JSON encoder/decoder hooks and pickle get/setstate over an abstract value tree, with the reachability invariant derived from the gateway model by induction over every history; differential correspondence of save/load against the real files in both formats",
+    text="json_round_trip, pickle_round_trip, formats_agree, persisted_exact, transient_not_restored for every state meeting the "
+         "invariant (non-negative keys, battery 0..100, version fixed under safe_is_version); negative_key_counterexample shows "
+         "the invariant is needed. round_trip_run (Properties/C11Reach.lean): for a fresh gateway of any version and kind and "
+         "every history of inbound lines and controller calls, the network it holds satisfies the invariant, so saving it as "
+         "JSON or pickle and loading it yields exactly the persisted projection and the two formats agree. Real save/load of "
+         "generated and real-gateway states compared with the model and with each other.",
+    note="Trusted: Lean kernel; json/pickle text layers (round-trip of plain trees); Model/Persist.lean as a model of the hooks "
+         "and Model/Gateway.lean as a model of the handlers (both validated by correspondence every run); controller set calls "
+         "with node ids in protocol range and carryable values (Op.carry).",
+    design_ref="DESIGN.md §6 C11, §11.3")
+CHECKS["C12"] = dict(
+    technique="Lean 4 proof: complete case analysis of the save's operation list over an abstract three-file store (all prior configurations x all crash prefixes / failing ops x all damage choices, symbolic contents); real operation sequence compared; every crash/fail point enumerated on the real code",
+    text="crash_atomic, fail_atomic, crash_never_empty, save_then_load, crash_restart_save_load: after a crash at any point or any "
+         "single failing operation the next start-up loads the complete old or complete new state and the next save succeeds; "
+         "unsynced_rename_would_lose shows the crash model is not vacuous. The harness records the real op sequence (must equal "
+         "the model's) and replays every (configuration, point, loss) combination on real files.",
+    note="Trusted: Lean kernel; the POSIX model (data durable only after fsync, renames atomic and ordered, no directory fsync "
+         "needed) — real power loss is not exhibited; Model/Fs.lean as model of persistence.py (op sequence compared every run).",
+    design_ref="DESIGN.md §6 C12")
+CHECKS["C13"] = dict(
+    technique="Lean 4 proof: case analysis of safe_load over main x backup file classes with an abstract parser classification; the classification is discharged by enumerating every truncation and zero-fill of real files",
+    text="startup_result, startup_never_raises, startup_whole_or_empty, startup_files, startup_idempotent; hostile_*_raises show "
+         "the classification assumption matters. Harness: every truncation length and zero-fill of generated json/pickle files x "
+         "backup absent/intact/damaged, exception classes recorded and checked to be the caught ones.",
+    note="Trusted: Lean kernel; the assumption that damaged content raises a caught exception class (checked by enumeration, not "
+         "proved; other kinds of damage not covered).",
+    design_ref="DESIGN.md §6 C13")
+CHECKS["C15"] = dict(
+    technique="Lean 4 proof: induction over arbitrary tick-outcome sequences of the save scheduler and the need_save protocol (both flavours); fault injection at every file operation / object visit on the real timer chain and asyncio loop",
+    text="schedule_stays_armed, failing_tick, ok_tick_writes, mutated_during_ok_dump, heals: after any sequence of outcomes the "
+         "schedule is armed, a failing tick keeps the previous file loadable and the state marked unsaved, the first later "
+         "successful tick writes the then-current state; unfixed_scheduler_counterexample documents the repaired defect.",
+    note="Trusted: Lean kernel; Model/Sched.lean; real timer/executor threads and timing not modelled (fake Timer, gated "
+         "asyncio.sleep); concurrent messages injected at object-visit granularity.",
+    design_ref="DESIGN.md §6 C15")
+CHECKS["C17"] = dict(
+    technique="Lean 4 proof: string algebra over all prefixes/topics/payloads for topic acceptance, publish/receive round trip, QoS; subscription coverage as an invariant over the gateway model's step; exhaustive prefix grid on the real MQTT gateways",
+    text="accept_iff, roundtrip, roundtrip_message, qos_iff_ack, publish_injective, subscriptions_cover, start_covers, "
+         "callbacks_total for every prefix (any List Char incl. '/', digits, empty).",
+    note="Trusted: Lean kernel; Model/Mqtt.lean (sampled on an exhaustive prefix grid up to length 5/6); callbacks modelled by "
+         "whether they raise; payloads are str; coverage theorems assume persistence on or an empty tree at start.",
+    design_ref="DESIGN.md §6 C17")
+CHECKS["C19"] = dict(
+    technique="Lean 4 proof: segmentation independence by induction over chunk lists for an arbitrary per-line decoder; pump equivalence: negation proved from a witness (known finding D12) plus partial theorems (state equality, output permutation, equality when drained/quiet); real protocol classes cut at every position, scripted pump schedules",
+    text="segmentation, cut_anywhere, delivered_exact, tcp_chunking, behaviour_independent_of_segmentation hold for every byte "
+         "stream and chunking. flavours_agree is FALSE on the current code: flavours_counterexample; flavours_partial_state / "
+         "_output / _quiet / _drained are what holds for every schedule. The check prints KNOWN-FINDING for the D12 shape and "
+         "reports any other flavour difference as a violation.",
+    note="Trusted: Lean kernel; Model/Framing.lean, Model/Pump.lean; the UTF-8 decoder is a parameter; the split of handler "
+         "output into returned reply vs queued jobs is correspondence-checked; real thread timing not modelled (scripted schedules).",
+    design_ref="DESIGN.md §6 C19")
+
+CHECKS["C03"] = dict(
+    technique="Lean 4 proof: validate <-> SpecHeader /\\ SpecRule for all Int headers and all payload strings over tables regenerated from /repo and kernel-checked equal to a frozen reference spec; rule-class semantics, monotonicity, totality; exhaustive header-space correspondence against the real Message.validate; independent JSON-spec oracle",
+    text="tables_eq_spec (decide +kernel per version), header_iff, rule_semantics (+ per-class clauses), monotone, total_rules, "
+         "validate_iff. The translator output is re-proved equal to spec/serial_api.json on every run, so a dropped row, a shifted "
+         "range or a changed validator is a broken obligation; the harness then finds the concrete line with the spec oracle.",
+    note="Trusted: Lean kernel; tools/gen_tables.py + tools/gen_spec.py (both covered by the correspondence); voluptuous "
+         "accept/reject, CPython int()/float() (float ranges as exact rationals with half-ulp thresholds) and awesomeversion on "
+         "dotted-numeric / container-word / digit-free strings are modelled and sampled; spec/serial_api.json is a reviewed "
+         "snapshot of the same source, not a second source.",
+    design_ref="DESIGN.md §6 C03")
+CHECKS["C18"] = dict(
+    technique="Lean 4 proof: floor selection for all naturals major.minor[.patch] via section-wise comparison lemmas; keyword-threading model of the six constructor chains decided over all option subsets; real constructions of every subset and the version grid",
+    text="floor / floor_unique: selectConst of a rendered version is the greatest supported version not above it (1.4 when none); "
+         "rejected_falls_back, nonnumeric_falls_back; options: for each class and every sub-list of documented keywords no key "
+         "reaches Gateway.__init__ unconsumed and each lands on the documented attribute. The chain model is checked against "
+         "__mro__, signatures and real constructions (2^7 per class quick, up to 2^13 thorough); README constructor examples "
+         "are evaluated.",
+    note="Trusted: Lean kernel; Model/Version.lean (awesomeversion 24.6 on the numeric grammar; container words accepted and "
+         "select 2.2; SemVer pre-releases / hex unjudged), Model/Options.lean (keyword-set threading), both sampled.",
+    design_ref="DESIGN.md §6 C18")
+
+CHECKS["C16"] = dict(
+    technique="Lean 4 proof: interleaving semantics over shared-access steps of Transport.send / _connection_lost / disconnect / connection_made with an inductive invariant for every schedule (kernel exploration as cross-check); queue FIFO by induction over schedules; real methods on real threads under a deterministic cooperative scheduler, all interleavings replayed",
+    text="send_safe_general: one send against any number of loss / disconnect / reconnect threads under every schedule never "
+         "raises, calls write at most once, and returns without a write only if the connection it saw is gone; "
+         "queue_fifo / queue_exactly_once for any producers and schedule; pinned_send_raises documents the repaired race.",
+    note="Trusted: Lean kernel; Model/Transport.lean; atomic steps = the instrumented shared accesses (reads/writes of "
+         "Transport.protocol, protocol.transport, write/close, deque append/popleft) of the unmodified methods — real "
+         "pre-emptive scheduling below that granularity is not modelled; three-thread scenarios with more than 2500 "
+         "schedules are sampled in the correspondence (the theorems cover all). Adjacent races outside the statement "
+         "(disconnect vs loss, double reconnect, late transport=None) are reported with witnesses, not raised.",
+    design_ref="DESIGN.md §6 C16, §11.6")
+CHECKS["C20"] = dict(
+    technique="Lean 4 proof: supervisor event automaton per gateway class (callbacks exact, reconnect until success, quiet after stop) by induction over event sequences; watchdog arithmetic over a millisecond clock with explicit slack; real connect loops / TCPTransport.run / check_connection on fake devices and a simulated clock",
+    text="callbacks_exact, callbacks_alternate, reconnect_follows_loss, retry_until_success, quiet_after_stop for all event "
+         "sequences and all four classes (the last two hold since the two fix: commits; unfixed counterexample theorems kept); "
+         "watchdog_no_false_drop (threaded: latency <= rt - 80 ms; asyncio: rt >= 0.1 s and answer before the next timer), "
+         "watchdog_drop (silent link dropped within 2rt + G, G explicit), drop_redials.",
+    note="Partial by nature. Trusted: Lean kernel; Model/Supervisor.lean; events are atomic (interleavings are C16); pyserial / "
+         "asyncio transport contracts, thread scheduling, sockets and the clock are fakes with an exact simulated clock; the "
+         "slack g and the asyncio rt >= 0.1 s precondition are explicit in the theorems; 'about twice the timeout' for a link "
+         "that goes silent after an answer is up to ~3rt + 0.1 s on asyncio (stated, not raised).",
+    design_ref="DESIGN.md §6 C20, §11.6")
+
 NOT_YET = {
 }
 
